@@ -42,8 +42,17 @@ def replay_chunk(args):
         sched.run_threads({1: w}, [])           # warm-up
     for s in schedules:
         res, ctl = sched.run_threads(ws, s)
+        if ctl.stuck:
+            # a thread did not reach its next yield point in time (a loaded machine, not the library: there is no
+            # lock in it to wait on) - run the schedule again with a generous time-out before judging
+            sched.Controller.timeout = 30.0
+            res, ctl = sched.run_threads(ws, s)
+            sched.Controller.timeout = 5.0
         for i in range(len(names)):
-            if res.get(i + 1) != solos[i]["obs"] or ctl.stuck:
+            if ctl.stuck:
+                bad.append({"machinery": "scheduler timed out twice", "workloads": names, "schedule": s, "thread": 0})
+                break
+            if res.get(i + 1) != solos[i]["obs"]:
                 bad.append({"workloads": names, "schedule": s, "thread": i + 1, "solo": solos[i]["obs"],
                             "observed": res.get(i + 1), "stuck": ctl.stuck})
                 break
@@ -102,6 +111,8 @@ def main(tier):
                 outs = list(ex.map(replay_chunk, jobs))
             n = sum(o[1] for o in outs)
             total += n
+            if any("machinery" in b for o in outs for b in o[0]):
+                raise MachineryFailure("the forced scheduler timed out twice on a schedule (machine too loaded?)")
             for o in outs:
                 for b in o[0][:20]:
                     chk.disagree(f"C06:{'+'.join(names)}:thread{b['thread']}:schedule={''.join(map(str, b['schedule']))[:120]}", b)
